@@ -45,10 +45,10 @@ def owners():
 
 
 def run_one(job):
-    rel, prop, tier, procs, seed = job
+    rel, prop, tier, procs, seed, scale = job
     env = dict(os.environ, VERIF_PROCS=str(procs), VERIF_SEED=str(seed), VERIF_SHRINK_S="20")
     t0 = time.time()
-    p = subprocess.run([os.path.join(HERE, "tools", "mutant_run.sh"), os.path.join(HERE, rel), prop, "--tier", tier], env=env, capture_output=True, text=True)
+    p = subprocess.run([os.path.join(HERE, "tools", "mutant_run.sh"), os.path.join(HERE, rel), prop, "--tier", tier, "--scale", str(scale)], env=env, capture_output=True, text=True)
     out = p.stdout + p.stderr
     viol = [l for l in out.splitlines() if l.startswith("VIOLATION")]
     buckets = [l.strip()[:200] for l in out.splitlines() if l.startswith("  bucket ")]
@@ -64,6 +64,7 @@ def main():
     ap.add_argument("--tier", default="quick")
     ap.add_argument("--seed", type=int, default=1)
     ap.add_argument("--match")
+    ap.add_argument("--scale", type=float, default=1.0, help="fraction of the tier's example counts (a mutant missed at a reduced scale is re-run at 1.0)")
     args = ap.parse_args()
     want = set(args.props.split(",")) if args.props else None
     ready = set(open(os.path.join(HERE, "ready.txt")).read().split())
@@ -76,10 +77,18 @@ def main():
                 continue
             if not os.path.exists(os.path.join(HERE, "vlib", "props", prop + ".py")):
                 continue
-            jobs.append((rel, prop, args.tier, args.procs, args.seed))
+            jobs.append((rel, prop, args.tier, args.procs, args.seed, args.scale))
     res = []
+    def run_two(job):
+        r = run_one(job)
+        if not r["caught"] and r["rc"] == 0 and job[5] < 1.0:
+            r = run_one(job[:5] + (1.0,))
+            r["rerun_at_full_scale"] = True
+        r["scale"] = job[5] if not r.get("rerun_at_full_scale") else 1.0
+        return r
+
     with cf.ThreadPoolExecutor(args.jobs) as ex:
-        for r in ex.map(run_one, jobs):
+        for r in ex.map(run_two, jobs):
             res.append(r)
             print(("CAUGHT " if r["caught"] else "MISSED ") + f"{r['property']} {r['mutant']} rc={r['rc']} {r['wall_s']}s {r['buckets'][:1]} {r['tail']}", flush=True)
     path = os.path.join(HERE, "mutants", "SELFTEST.json")
